@@ -4,7 +4,7 @@ CONSTANTS
   Entries <- MCEntries
   WL <- MCWL
   InitMem = {}
-  MaxCrash = 1
+  MaxCrash = 0
   PLabels = {"a", "b", "c"}
   PDepth = 3
 INIT Init
